@@ -41,7 +41,7 @@ package parser
 //@
 //@ func (*Parser).parseNotationInComments(p, notations, validOps, opts) (err)
 //@   requires wfParser(p) && wfNotes(notations) && option.optsInv(*opts) && tight(*opts)
-//@   effects log
+//@   effects log, warn
 //@   assigns *opts
 //@   ensures {C09,C14} option.optsInv(*opts) && disjoint(opts.NameMapper, opts.TemplatedNameMapper)
 //@   ensures {C09} err == nil ==> opts.ExactCase == toggleAfter(old(opts.ExactCase), notations, validOps, len(notations), "case", "case:off")
@@ -106,13 +106,13 @@ package parser
 //@
 //@ func (*Parser).lookupConverterFunc(p, funcName, pos) (argType, retType, retError, err)
 //@   requires wfParser(p)
-//@   effects log
+//@   effects log, warn
 //@   ensures {C14,C06} err == nil ==> argType != nil && retType != nil
 //@   ensures {C14,C03} err != nil ==> hasPrefix(errmsg(err), posText(p.fset, pos) + ": ")
 //@
 //@ func (*Parser).lookupManipulatorFunc(p, funcName, optName, pos) (m, err)
 //@   requires wfParser(p)
-//@   effects log
+//@   effects log, warn
 //@   ensures {C14,C10} err != nil ==> m == nil && hasPrefix(errmsg(err), posText(p.fset, pos) + ": ")
 //@   ensures {C14,C10} err == nil ==> m != nil && fresh(m) && m.Func != nil && m.DstSide != nil && m.SrcSide != nil && m.Pos == pos
 //@   ensures {C10} err == nil ==> is(objType(m.Func), *types.Signature) && nPar(objSig(m.Func)) >= 2 && nRes(objSig(m.Func)) <= 1
@@ -137,7 +137,7 @@ package parser
 //@
 //@ func (*Parser).parseMethod(p, method, opts) (m, err)
 //@   requires wfParser(p) && p.file != nil && method != nil && option.optsInv(opts) && tight(opts)
-//@   effects log
+//@   effects log, warn
 //@   assigns all(ast.CommentGroup.List), all(ast.GenDecl.Doc), all(ast.FuncDecl.Doc), all(ast.TypeSpec.Doc), all(ast.Field.Doc)
 //@   ensures {C14,C09} err == nil ==> m != nil && fresh(m) && m.Method == method && option.optsInv(m.Opts)
 //@   ensures {C14,C08,C03} err == nil ==> is(objType(method), *types.Signature) && nPar(objSig(method)) > 0 && nRes(objSig(method)) > 0
@@ -158,7 +158,7 @@ package parser
 //@
 //@ func (*Parser).parseMethods(p, intf) (r, err)
 //@   requires wfParser(p) && p.file != nil && wfIntf(intf)
-//@   effects log, stderr
+//@   effects log, stderr, warn
 //@   assigns all(ast.CommentGroup.List), all(ast.GenDecl.Doc), all(ast.FuncDecl.Doc), all(ast.TypeSpec.Doc), all(ast.Field.Doc)
 //@   ensures {C14,C08,C17,C03} err == nil ==> len(r) == msetLen(ifaceMethods(intf))
 //@   ensures {C14,C08,C17} err == nil ==> forall(i, 0, len(r), r[i] != nil && r[i].Method == nthMethod(intf, i) && option.optsInv(r[i].Opts))
@@ -178,7 +178,7 @@ package parser
 //@ func (*Parser).findConvergenEntries(p) (r, err)
 //@   props C11
 //@   requires wfP(p)
-//@   effects log, random
+//@   effects log, random, warn
 //@   assigns all(ast.CommentGroup.List), all(ast.GenDecl.Doc), all(ast.FuncDecl.Doc), all(ast.TypeSpec.Doc), all(ast.Field.Doc)
 //@   ensures {C17,C14} err == nil ==> len(r) > 0
 //@   ensures {C17,C09,C14} forall(i, 0, len(r), wfIntf(r[i]) && isIface(r[i].intf) && inFile(p, r[i].intf))
@@ -205,7 +205,7 @@ package parser
 //@
 //@ func (*Parser).resolveConverters(p, generatingMethods, conv) (err)
 //@   requires wfParser(p) && option.nmInv(conv.m) && forall(i, 0, len(generatingMethods), wfME(generatingMethods[i]))
-//@   effects log
+//@   effects log, warn
 //@   assigns conv.argType, conv.retType, conv.retError
 //@   ensures {C06,C14} err == nil ==> conv.argType != nil && conv.retType != nil
 //@   ensures {C14,C03} err != nil ==> hasPrefix(errmsg(err), posText(p.fset, conv.m.pos) + ": ")
@@ -213,7 +213,7 @@ package parser
 //@
 //@ func (*Parser).Parse(p) (r, err)
 //@   requires wfP(p)
-//@   effects log, stderr, random
+//@   effects log, stderr, random, warn
 //@   assigns p.intfEntries, all(ast.CommentGroup.List), all(ast.GenDecl.Doc), all(ast.FuncDecl.Doc), all(ast.TypeSpec.Doc), all(ast.Field.Doc), all(option.FieldConverter.argType), all(option.FieldConverter.retType), all(option.FieldConverter.retError)
 //@   ensures {C17,C08,C14,C03} err == nil ==> len(r) == len(p.intfEntries) && len(r) > 0
 //@   ensures {C17,C08,C13} err == nil ==> forall(i, 0, len(r), r[i] != nil && r[i].Marker == p.intfEntries[i].marker && len(r[i].Methods) == msetLen(ifaceMethods(p.intfEntries[i])))
@@ -243,7 +243,7 @@ package parser
 //@   atcall ParseFile: {C12,C11} $arg3 == parser.ParseComments ==> sameFile(stat, *srcStat)
 //@
 //@ func NewParser(srcPath, dstPath) (p, e)
-//@   effects fs-read, parsefile, log
+//@   effects fs-read, parsefile, log, warn
 //@   assigns boxes(*ast.File), boxes(error)
 //@   assume-after Load: *fileSrc != nil || *parseErr != nil
 //@   ensures {C12,C14} e == nil ==> p != nil && fresh(p) && wfP(p) && p.intfEntries == nil
